@@ -12,6 +12,7 @@ import z3
 
 from .values import *  # noqa
 from . import rx
+from . import strlemmas
 from .abstract import abstract
 from .extract import strip_dropped
 
@@ -174,6 +175,7 @@ class Engine:
         self.feas_timeout = int(__import__('os').environ.get('PYVC_FEAS_MS', '400'))
         self.assumptions_used = set()
         self.inlined = set()
+        self.lemmas_used = set()
         self.callees_by_contract = set()
         self.stats = {"stmts": 0, "dropped": 0}
         self.max_paths = 4000
@@ -494,6 +496,8 @@ class Engine:
         if elemty.startswith("opaque:"):
             f = z3.Function(base, z3.IntSort(), U)
             return VOpaque(elemty[7:], f(i))
+        if elemty.startswith("class:"):
+            return VClass(elemty[6:])
         if elemty.startswith("obj:"):
             # objects in symbolic lists: one record per *syntactic* index term
             o = VObj(elemty[4:], name="%s[%s]" % (base, i))
@@ -1352,6 +1356,8 @@ class Engine:
                 self.raise_("TypeError", site=node.lineno)
             if is_conc(c.z) and is_conc(x.z):
                 return x.z in c.z
+            if is_conc(x.z) and not is_conc(c.z):
+                return strlemmas.contains(c.z, x.z)
             return z3.Contains(zstr(c.z), zstr(x.z))
         if isinstance(c, (VList, VTuple)):
             if isinstance(c, VTuple) or c.concrete():
@@ -1541,7 +1547,7 @@ class Engine:
                 v = _oldview(self.entry_value(live, attr, node))
                 obj.fields[attr] = v
                 return v
-            if attr in obj.fieldty and not getattr(obj, "fresh_alloc", False):
+            if attr in obj.fieldty and (not getattr(obj, "fresh_alloc", False) or obj.fieldty[attr].startswith("ghost:")):
                 try:
                     v = self.entry_value(obj, attr, node)
                 except Raised:
@@ -1591,6 +1597,8 @@ class Engine:
                 self.raise_("AttributeError", site=getattr(node, "lineno", None))
             return v
         ty = obj.fieldty[attr]
+        if ty.startswith("ghost:"):
+            ty = ty[6:]
         if ty.startswith("maybe:"):
             ty = ty[6:]
             isset = z3.Bool(self.fresh_name("%s_has_%s" % (obj.name, attr)))
